@@ -46,7 +46,8 @@ for mpath in seeds:
     anyc = lambda ch: any(v.get('rc') == 1 for v in ch.values())
     r = rounds.setdefault(rnd, {'n': 0, 'first': 0, 'now': 0, 'cross': 0})
     r['n'] += 1
-    r['first'] += caught(first)
+    tri = m.get('first_triage', {}).get('verdict')
+    r['first'] += caught(first) and tri != 'MISSED'
     r['now'] += caught(now)
     r['cross'] += (not caught(now)) and anyc(now)
 out.append('| round | confirmed changes | caught by the owning check when first run | caught by the owning check now | caught only by another property\'s check |\n|---|---|---|---|---|')
@@ -68,7 +69,9 @@ for mpath in seeds:
     others = ['%s' % k.split(':')[0] for k, v in ch.items() if not k.startswith(pid) and v.get('rc') == 1]
     hist = m.get('checks_history', [])
     first = ''
-    if hist:
+    if m.get('first_triage', {}).get('verdict') == 'MISSED' and not (hist and hist[0].get('%s:quick' % pid, {}).get('rc') == 0):
+        first = ' **[first run: quick MISSED (triage run before any strengthening); check strengthened afterwards]**'
+    elif hist:
         h0 = hist[0]
         fq, ft = h0.get('%s:quick' % pid, {}), h0.get('%s:thorough' % pid, {})
         first = ' **[first run: quick %s%s; check strengthened afterwards]**' % (
